@@ -161,6 +161,12 @@ def _on_alarm(signum, frame):
     raise lib.LibTimeout()
 
 
+def _raised_in_library(ex):
+    import traceback
+    tb = traceback.extract_tb(ex.__traceback__)
+    return bool(tb) and os.path.realpath(tb[-1].filename).startswith(os.path.realpath(lib.PKG_DIR) + os.sep)
+
+
 def _run_shard(job):
     fi, si = job
     fam = _FAMS[fi]
@@ -185,6 +191,17 @@ def _run_shard(job):
                                         'library call did not return within %gs' % fam.scene_timeout)]
         except lib.ConstructionFailed as cf:
             cell, vs = 'operand-construction-failed', [construction_viol(_PROP, fam.name, fam.enc_scene(scene), cf)]
+        except HarnessError:
+            raise
+        except Exception as ex:  # noqa
+            # an exception that ORIGINATES inside the library's own code while the harness drives it with valid arguments
+            # (a move, a constructor, a setter outside lib.call) is the library failing, not the harness; anything raised
+            # by harness code stays a harness error
+            if not _raised_in_library(ex):
+                raise
+            cell, vs = 'library-raised', [Viol('%s|%s|library-raised-outside-a-wrapped-call|%s' % (_PROP, fam.name.split('/')[0], type(ex).__name__),
+                                               fam.enc_scene(scene), 'no exception', '%s: %s' % (type(ex).__name__, str(ex)[:200]),
+                                               'library code raised while the harness was building / driving the scene')]
         finally:
             signal.setitimer(signal.ITIMER_REAL, 0)
         if cell.startswith('skip:'):
@@ -221,7 +238,8 @@ def run_families(prop, families, seed=0, nproc=None):
     # determinism self-check: first shard twice, in-process
     first = _run_shard(jobs[0])
     again = _run_shard(jobs[0])
-    if first[8] != again[8] or first[2] != again[2]:
+    if (first[8] != again[8] or first[2] != again[2]) and not (first[6] or again[6]):
+        # (if either run already shows violations, a history-dependent library is the likelier cause: carry on and report them)
         raise HarnessError('harness nondeterministic on shard %r' % (jobs[0],))
     # VERIF_SEED only rotates the dispatch order
     k = seed % len(jobs)
